@@ -80,21 +80,18 @@ func (b *Uint32SizedArray) Unmarshal(r io.Reader) error {
 	return readSizedArray(r, &size, &b.Data)
 }
 
-func makeSized[T any](size any) ([]T, error) {
-	switch s := size.(type) {
-	case *byte:
-		if *s == 0 {
-			return nil, nil
-		}
-		return make([]T, *s), nil
-	case *uint32:
-		if *s == 0 {
-			return nil, nil
-		}
-		return make([]T, *s), nil
-	default:
-		return nil, fmt.Errorf("unsupported array size type %T", size)
+// readExactly reads exactly n bytes from r. The buffer grows with the data that is actually
+// present, so a size prefix larger than the remaining input cannot force a large allocation.
+func readExactly(r io.Reader, n uint64) ([]byte, error) {
+	data, err := io.ReadAll(io.LimitReader(r, int64(n)))
+	if err != nil {
+		return data, err
 	}
+	if uint64(len(data)) != n {
+		// The partial data is returned for error reporting.
+		return data, io.ErrUnexpectedEOF
+	}
+	return data, nil
 }
 
 // Uint32SizedArrayT represents a uint32 sized array of a given type, with elements that are
@@ -118,12 +115,15 @@ func (d *Uint32SizedArrayT[T]) Unmarshal(r io.Reader) error {
 		d.Array = nil
 		return nil
 	}
-	d.Array = make([]T, size)
-	for i := range d.Array {
-		d.Array[i] = d.Array[i].Create().(T)
-		if err := d.Array[i].Unmarshal(r); err != nil {
+	// The array grows with the elements actually present in the input.
+	d.Array = nil
+	for i := uint32(0); i < size; i++ {
+		var zero T
+		elt := zero.Create().(T)
+		if err := elt.Unmarshal(r); err != nil {
 			return fmt.Errorf("failed to unmarshal %T element %d: %v", []T{}, i, err)
 		}
+		d.Array = append(d.Array, elt)
 	}
 	return nil
 }
@@ -132,14 +132,22 @@ func readSizedArray(r io.Reader, size any, data *[]byte) error {
 	if err := binary.Read(r, binary.LittleEndian, size); err != nil {
 		return fmt.Errorf("failed to read array size as %T: %w", size, err)
 	}
-	result, err := makeSized[byte](size)
-	if err != nil {
-		return err
+	var n uint64
+	switch s := size.(type) {
+	case *byte:
+		n = uint64(*s)
+	case *uint32:
+		n = uint64(*s)
+	default:
+		return fmt.Errorf("unsupported array size type %T", size)
 	}
-	if len(result) != 0 {
-		if _, err := io.ReadFull(r, result); err != nil {
-			return fmt.Errorf("failed to read %d byte array: %w", len(result), err)
-		}
+	if n == 0 {
+		*data = nil
+		return nil
+	}
+	result, err := readExactly(r, n)
+	if err != nil {
+		return fmt.Errorf("failed to read %d byte array: %w", n, err)
 	}
 	*data = result
 	return nil
